@@ -25,6 +25,15 @@ Clauses
               constant design's coefficient sample by sample; comb delays 1..12 and
               131..48000; the tau form's coefficient Stream also equals e^{-delay/tau}
               itself sample by sample
+  controls    one parameter object for a bank of one to three designs of every thub-based family: a
+              ControlStream (value changed between reads), an endless constant Stream, or a finite
+              Stream shared through thub(stream, copies); the coefficient Streams are read a few samples
+              at a time in any order: index i of every coefficient of a design is the constant design
+              for that design's i-th parameter sample (the control's value when index i was first pulled)
+
+Entry points: every family is called through attribute, item, the dictionary itself (default strategy)
+and with the documented parameter names as keywords (gammatone.sampled also with phase / eta by
+position); a share of the named-strategy calls runs while every dictionary has another default set.
 """
 import math
 import itertools
@@ -35,7 +44,7 @@ from vlib.core import Clause, Enumerated, Violation
 from vlib.q import Q
 
 from audiolazy import (lowpass, highpass, resonator, comb, gammatone, Stream,
-                       CascadeFilter, LinearFilter)
+                       CascadeFilter, LinearFilter, ControlStream, thub)
 
 ID = "C13"
 RULE = ("cases = (design strategy chosen by name, parameters drawn from the "
@@ -49,7 +58,10 @@ RULE = ("cases = (design strategy chosen by name, parameters drawn from the "
         "second-order stability triangle, an exact Fraction model of the comb "
         "recursions, constant designs for Stream-valued parameters; "
         "non-trivial = parameter not at a forced boundary value (comb: signal "
-        "longer than the delay, or a given state whose order matters); distinct = distinct case hash")
+        "longer than the delay, or a given state whose order matters; controls: the value changes, a later "
+        "design of the bank is read, or a shared finite Stream has different values); calls by attribute, item, "
+        "default strategy, keyword and position, a share of them while other default strategies are set; "
+        "distinct = distinct case hash")
 ASSUMPTIONS = [
   "magnitudes are evaluated from filt.numerator / filt.denominator with an independent fsum evaluation "
   "(and cross-checked against filt.freq_response at the asserted points)",
@@ -73,6 +85,14 @@ ASSUMPTIONS = [
   "LinearFilter call: 'the first needed elements ... will be used directly as the memory'), given as list, "
   "tuple, iterator, generator, Stream or callable(size); memories shorter than the delay are not generated "
   "(where the fill-up zeros go is undocumented); feedforward combs are always started from rest",
+  "a ControlStream parameter has as its i-th sample the value the control holds when index i is first pulled "
+  "by any coefficient Stream of the design (each design hubs the parameter once: documented tee semantics of "
+  "thub); one control / endless constant Stream may be given to several designs, a finite Stream only through "
+  "thub(stream, number of designs); a finite parameter of N samples gives coefficient Streams of N samples that "
+  "then end",
+  "a call through the dictionary itself (resonator(...), gammatone(...)) is held to the contract of the strategy "
+  "whose name the dictionary's default carries at that moment (lowpass: pole, highpass: z are set explicitly in "
+  "the source); named strategies are held to their own contract whichever defaults are set",
   "design parameters are numbers or Streams (documented: 'a value (or a Stream of values)'), plus plain "
   "lists / tuples for gammatone.klapuri (the library's own tests); other non-Stream iterables (iter(list), "
   "itertools objects) are not generated: the unchanged library rejects them in most sibling designs "
@@ -128,6 +148,31 @@ def region(c):
   return "cutoff mid"
 
 
+class other_defaults(object):
+  """While active, every strategy dictionary of the designs has another default strategy (the default
+  is the user's to choose: StrategyDict feature); a named strategy is what its name says whichever
+  strategy currently is the default, its own dictionary's or a sibling dictionary's."""
+  def __init__(self, active):
+    self.active = active
+    self.saved = []
+
+  def __enter__(self):
+    if self.active:
+      for sd, alt in ((lowpass, "z_exp"), (highpass, "pole_exp"), (resonator, "freq_poles_exp"),
+                      (gammatone, "slaney"), (comb, "ff")):
+        self.saved.append((sd, sd.default))
+        sd.default = sd[alt]
+    return self
+
+  def __exit__(self, *exc):
+    for sd, dflt in reversed(self.saved):
+      sd.default = dflt
+    return False
+
+
+FLIPPED = "another default strategy set in every dictionary"
+
+
 # ---------------------------------------------------------------- lowpass / highpass
 
 STRATS = ["pole", "z", "pole_exp", "z_exp"]
@@ -149,6 +194,8 @@ def design_lowhigh(band, strat, call, cutoff):
     return sd[strat](cutoff)
   if call == "default":       # lowpass.default is pole, highpass.default is z
     return sd(cutoff)
+  if call == "kw":            # the documented parameter name
+    return getattr(sd, strat)(cutoff=cutoff)
   raise AssertionError(call)
 
 
@@ -159,7 +206,7 @@ def strat_lowhigh(tier):
     return c
   return st.fixed_dictionaries({
     "band": st.sampled_from(["low", "high"]), "strat": st.sampled_from(STRATS),
-    "call": st.sampled_from(["attr", "attr", "item", "default"]), "cutoff": _cut}).map(fix)
+    "call": st.sampled_from(["attr", "attr", "item", "default", "kw"]), "cutoff": _cut}).map(fix)
 
 
 def check_lowhigh(band, strat, c, filt):
@@ -198,9 +245,13 @@ def check_lowhigh(band, strat, c, filt):
 
 def run_lowhigh(case):
   band, strat, c = case["band"], case["strat"], case["cutoff"]
-  filt = design_lowhigh(band, strat, case["call"], c)
+  flip = case["call"] != "default" and int(c * 1e6) % 3 == 0
+  with other_defaults(flip):
+    filt = design_lowhigh(band, strat, case["call"], c)
   labels = check_lowhigh(band, strat, c, filt)
   labels.append("call:" + case["call"])
+  if flip:
+    labels.append(FLIPPED)
   if isinstance(c, int):
     labels.append("int cutoff")
   forced = c in _cut_special
@@ -237,7 +288,7 @@ _bw = st.one_of(st.floats(1e-3, 1), st.floats(1e-3, 1), st.floats(1e-3, .02),
 
 def strat_resonator(tier):
   return st.fixed_dictionaries({"strat": st.sampled_from(RES), "freq": _freq, "bw": _bw,
-                                "call": st.sampled_from(["attr", "item"])})
+                                "call": st.sampled_from(["attr", "item", "item", "kw", "kw", "default"])})
 
 
 def check_resonator(strat, freq, bw, filt):
@@ -279,8 +330,24 @@ def check_resonator(strat, freq, bw, filt):
 
 def run_resonator(case):
   strat, freq, bw = case["strat"], case["freq"], case["bw"]
-  filt = resonator[strat](freq, bw) if case["call"] == "item" else getattr(resonator, strat)(freq, bw)
+  call = case["call"]
+  flip = call != "default" and (int(freq * 1e6) + int(bw * 1e6)) % 3 == 1
+  with other_defaults(flip):
+    if call == "default":
+      # resonator(freq, bandwidth): the contract is the one of the strategy that is the default (the first
+      # one declared, poles_exp; its name is read from the dictionary so that nothing more is asserted)
+      strat = resonator.default.__name__
+      if strat not in RES:
+        raise Violation("resonator.default is %r" % (resonator.default,))
+      filt = resonator(freq, bw)
+    elif call == "kw":          # documented parameter names, in either order
+      filt = resonator[strat](bandwidth=bw, freq=freq) if bw < .5 else getattr(resonator, strat)(freq=freq, bandwidth=bw)
+    else:
+      filt = resonator[strat](freq, bw) if call == "item" else getattr(resonator, strat)(freq, bw)
   labels, asserted = check_resonator(strat, freq, bw, filt)
+  labels.append("call:" + call)
+  if flip:
+    labels.append(FLIPPED)
   labels.append("bw<0.02" if bw < .02 else "bw>=0.02")
   forced = freq in (LO, HI) or bw in (1e-3, 1)
   return {"nontrivial": asserted and not forced, "labels": labels}
@@ -332,7 +399,8 @@ def strat_comb_(draw):
   else:
     x = tiled(draw(st.lists(_q, min_size=1, max_size=9)), draw(st.sampled_from([Q(0), Q(0), Q(1, 8), Q(-1, 3)])), n)
   case = {"kind": kind, "name": name, "delay": delay, "par": par, "x": x,
-          "kw": draw(st.booleans()), "zero": draw(st.sampled_from(["default", "q0", "int0"]))}
+          "kw": draw(st.booleans()), "zero": draw(st.sampled_from(["default", "q0", "int0"])),
+          "dkw": draw(st.sampled_from([False, False, False, True]))}
   # the outputs before the first sample: zeros when nothing is given (as before), or the caller's
   # memory (y[-1] first, the documented convention of every LinearFilter call); exactly `delay`
   # values most of the time, else more (the first ones count). Fewer values than the delay are not
@@ -353,8 +421,10 @@ def strat_comb(tier):
   return strat_comb_()
 
 
-def design_comb(kind, name, delay, par, kw):
+def design_comb(kind, name, delay, par, kw, dkw=False):
   fn = comb if name == "default" else comb[name]
+  if dkw:           # everything by its documented name
+    return fn(delay=delay) if par is None else fn(**{"delay": delay, "tau" if kind == "tau" else "alpha": par})
   if par is None:
     return fn(delay)
   if kw:
@@ -387,12 +457,14 @@ def run_comb(case):
   try:
     if flip:
       comb.default = comb.ff if kind != "ff" else comb.fb
-    filt = design_comb(kind, name, D, par, case["kw"])
+    filt = design_comb(kind, name, D, par, case["kw"], case.get("dkw", False))
   finally:
     comb.default = saved
   what = "comb.%s(%r, %r)%s" % (name, D, par, " with another default strategy set" if flip else "")
   a = coeffs(filt, what)[1]
   labels = ["comb." + kind, "alias" if name != kind else "canonical name"]
+  if case.get("dkw"):
+    labels.append("delay by keyword")
   if kind == "tau":
     tau = math.inf if par is None else par
     want = math.exp(-D / tau)
@@ -608,9 +680,11 @@ def strat_gammatone(tier):
     st.fixed_dictionaries({"strat": st.just("sampled"), "freq": _freq, "bw": _bw,
                            "phase": st.one_of(st.none(), st.just(0), st.floats(-PI, PI),
                                               st.sampled_from([PI / 2, -PI / 2, PI, .3])),
-                           "eta": st.one_of(st.none(), st.integers(1, 4))}),
+                           "eta": st.one_of(st.none(), st.integers(1, 4)),
+                           "call": st.sampled_from(["item", "attr", "positional", "positional", "kw", "default"])}),
     st.fixed_dictionaries({"strat": st.sampled_from(["slaney", "klapuri"]), "freq": _freq, "bw": _bw,
-                           "phase": st.none(), "eta": st.none()}))
+                           "phase": st.none(), "eta": st.none(),
+                           "call": st.sampled_from(["item", "attr", "kw"])}))
 
 
 def run_gammatone(case):
@@ -627,14 +701,40 @@ def run_gammatone(case):
     if isinstance(earlier, list) and len(earlier):
       earlier.append(earlier[0])
       earlier[0] = earlier[-1] * 2
-  casc = gammatone[strat](freq, bw, **kw)
-  what = "gammatone.%s(%r, %r%s)" % (strat, freq, bw, "".join(", %s=%r" % p for p in sorted(kw.items())))
+  call = case.get("call", "item")
+  flip = call != "default" and (int(freq * 1e6) + int(bw * 1e6)) % 3 != 2
+  with other_defaults(flip):
+    if call == "item":
+      casc = gammatone[strat](freq, bw, **kw)
+    elif call == "attr":
+      casc = getattr(gammatone, strat)(freq, bw, **kw)
+    elif call == "kw":          # the documented parameter names
+      casc = gammatone[strat](bandwidth=bw, freq=freq, **kw)
+    elif call == "positional":  # documented order: freq, bandwidth, phase, eta
+      args = [freq, bw]
+      if kw:
+        args.append(kw.get("phase", 0))
+      if "eta" in kw:
+        args.append(kw["eta"])
+      casc = gammatone[strat](*args)
+    else:                       # gammatone(...): the contract of whichever strategy is the default (sampled)
+      strat = gammatone.default.__name__
+      if strat not in ("sampled", "slaney", "klapuri"):
+        raise Violation("gammatone.default is %r" % (gammatone.default,))
+      if strat != "sampled":
+        kw = {}
+      casc = gammatone(freq, bw, **kw)
+  what = "gammatone.%s(%r, %r%s)%s" % (strat, freq, bw, "".join(", %s=%r" % p for p in sorted(kw.items())),
+                                       {"item": "", "attr": "", "kw": " (all by keyword)", "default": " (called as gammatone(...))",
+                                        "positional": " (all by position)"}[call])
+  if flip:
+    what += " with " + FLIPPED
   if not isinstance(casc, CascadeFilter):
     raise Violation("%s returned a %s, not a CascadeFilter" % (what, type(casc).__name__))
   if len(casc) < 1:
     raise Violation("%s returned an empty cascade" % what)
-  if strat == "sampled" and len(casc) != (case["eta"] or 4):
-    raise Violation("%s has %d sections, eta is %d" % (what, len(casc), case["eta"] or 4))
+  if strat == "sampled" and len(casc) != (kw.get("eta") or 4):
+    raise Violation("%s has %d sections, eta is %d" % (what, len(casc), kw.get("eta") or 4))
   total = 1.
   cond = 0.
   for i, sec in enumerate(casc):
@@ -666,6 +766,13 @@ def run_gammatone(case):
             "bw<0.02" if bw < .02 else "bw>=0.02"]
   if case["phase"] not in (None, 0):
     labels.append("phase given")
+  labels.append("call:" + call)
+  if call == "positional" and kw:
+    labels.append("phase / eta by position")
+  if flip:
+    labels.append(FLIPPED)
+    if strat == "klapuri":
+      labels.append("klapuri with other defaults set")
   if limit > 1e-6:
     labels.append("conditioning-limited tolerance")
   elif err > .1 * tol:
@@ -822,22 +929,226 @@ def run_streams(case):
   return {"nontrivial": True, "labels": labels}
 
 
+# ---------------------------------------------------------------- control-valued parameters, banks
+#
+# A ControlStream is a Stream ("yields a control value that can be changed at any time"): its n-th
+# sample is the value it holds when that sample is first pulled.  It is the parameter a design with
+# Stream-valued coefficients is made for (a cut-off knob, one decay control for a bank of combs), so:
+#   * one control object is given to one to three designs of the same parameter kind (a bank);
+#   * the coefficient Streams are read a few samples at a time, in any order, and the control's
+#     value is changed between reads.
+# Oracle: every design pulls its own sequence of parameter samples; sample i of that sequence is the
+# control's value at the moment index i was first pulled by ANY coefficient Stream of that design, and
+# index i of EVERY coefficient Stream of the design is the constant design's coefficient for it.
+
+CTRL_GROUPS = ["angle", "angle", "angle", "bw", "alpha", "tau", "tau"]
+
+
+@st.composite
+def strat_controls_(draw):
+  group = draw(st.sampled_from(CTRL_GROUPS))
+  nd = draw(st.sampled_from([1, 2, 2, 3]))
+  designs = []
+  for unused in range(nd):
+    if group == "angle":
+      fam = draw(st.sampled_from(["lowhigh", "lowhigh", "lowhigh", "resonator", "resonator", "resonator",
+                                  "resonator", "klapuri", "klapuri"]))
+    elif group == "bw":
+      fam = draw(st.sampled_from(["resonator", "resonator", "klapuri"]))
+    else:
+      fam = "comb"
+    if fam == "lowhigh":
+      d = {"fam": fam, "band": draw(st.sampled_from(["low", "high"])), "strat": draw(st.sampled_from(STRATS))}
+    elif fam == "resonator":
+      d = {"fam": fam, "strat": draw(st.sampled_from(RES)), "other": draw(_bw if group == "angle" else _freq)}
+    elif fam == "klapuri":
+      d = {"fam": fam, "other": draw(_bw if group == "angle" else _freq)}
+    else:
+      kind = "tau" if group == "tau" else draw(st.sampled_from(["fb", "ff"]))
+      d = {"fam": fam, "kind": kind, "name": draw(st.sampled_from(COMB[kind])),
+           "delay": draw(st.one_of(st.integers(1, 12), st.integers(1, 12), st.integers(13, 400)))}
+    designs.append(d)
+  val = {"angle": _cut, "bw": _bw, "alpha": _alpha,
+         "tau": st.one_of(st.floats(.5, 400), st.integers(1, 50), st.sampled_from([1.0, 1e3, 30., 8.]))}[group]
+  ops = []
+  if draw(st.booleans()):
+    for unused in range(draw(st.integers(3, 9))):
+      if draw(st.sampled_from([True, True, False])):
+        ops.append(["read", draw(st.integers(0, nd - 1)), draw(st.integers(0, 5)), draw(st.integers(1, 4))])
+      else:
+        ops.append(["set", draw(val)])
+  else:
+    # leapfrog: the coefficients of one design are read in turns, the value changes between the turns (a
+    # block-wise user: some samples of one coefficient / section, then the same samples of the next)
+    j = draw(st.integers(0, nd - 1))
+    for unused in range(draw(st.integers(2, 4))):
+      ops.append(["read", j, draw(st.integers(0, 5)), draw(st.integers(1, 4))])
+      ops.append(["set", draw(val)])
+    ops.append(["read", draw(st.integers(0, nd - 1)), draw(st.integers(0, 5)), draw(st.integers(1, 4))])
+  # "hub": the documented way of giving one (finite) Stream to several designs: thub(stream, copies)
+  return {"group": group, "designs": designs, "value": draw(val), "ops": ops,
+          "vals": draw(st.lists(val, min_size=2, max_size=7)),
+          "src": draw(st.sampled_from(["control"] * 5 + ["repeat"] + ["hub"] * 3))}
+
+
+def strat_controls(tier):
+  return strat_controls_()
+
+
+def build_control_design(group, d, par):
+  """The design d with `par` (a number, or the shared parameter object) in the place of the group's parameter."""
+  if d["fam"] == "lowhigh":
+    return [(lowpass if d["band"] == "low" else highpass)[d["strat"]](par)]
+  if d["fam"] == "resonator":
+    return [resonator[d["strat"]](par, d["other"]) if group == "angle" else resonator[d["strat"]](d["other"], par)]
+  if d["fam"] == "klapuri":
+    casc = gammatone.klapuri(par, d["other"]) if group == "angle" else gammatone.klapuri(d["other"], par)
+    if not isinstance(casc, CascadeFilter):
+      raise Violation("gammatone.klapuri returned a %s, not a CascadeFilter" % type(casc).__name__)
+    return list(casc)
+  return [(comb if d["name"] == "default" else comb[d["name"]])(d["delay"], par)]
+
+
+def describe_control_design(group, d):
+  if d["fam"] == "lowhigh":
+    return "%spass.%s(c)" % (d["band"], d["strat"])
+  if d["fam"] == "resonator":
+    return "resonator.%s(%s)" % (d["strat"], "c, %r" % d["other"] if group == "angle" else "%r, c" % d["other"])
+  if d["fam"] == "klapuri":
+    return "gammatone.klapuri(%s)" % ("c, %r" % d["other"] if group == "angle" else "%r, c" % d["other"])
+  return "comb.%s(%d, c)" % (d["name"], d["delay"])
+
+
+def section_tables(sections):
+  out = {}
+  for s, sec in enumerate(sections):
+    if not isinstance(sec, LinearFilter):
+      raise Violation("section %d is a %s, not a linear filter" % (s, type(sec).__name__))
+    for side, dct in (("b", sec.numdict), ("a", sec.dendict)):
+      for k, v in dct.items():
+        out[(s, side, k)] = v
+  return out
+
+
+def run_controls(case):
+  group, designs, src = case["group"], case["designs"], case["src"]
+  vals = list(case["vals"]) if src == "hub" else None
+  value = case["value"] if vals is None else vals[0]
+  if src == "control":
+    ctrl, ctxt = ControlStream(value), "ControlStream(%r)" % (value,)
+  elif src == "repeat":
+    ctrl, ctxt = Stream(itertools.repeat(value)), "Stream(repeat(%r))" % (value,)
+  else:       # one copy for each design of the bank
+    ctrl, ctxt = thub(Stream(iter(list(vals))), len(designs)), "thub(Stream(%r), %d)" % (vals, len(designs))
+  names = [describe_control_design(group, d) for d in designs]
+  what = "c = %s; bank = [%s]" % (ctxt, ", ".join(names))
+  built = [section_tables(build_control_design(group, d, ctrl)) for d in designs]
+  streams, pos, pulled, consts = [], [], [], {}
+  for j, tab in enumerate(built):
+    keys = sorted(k for k, v in tab.items() if isinstance(v, Stream))
+    if not keys:
+      raise Violation("%s: no coefficient of %s is a Stream" % (what, names[j]))
+    streams.append([(k, iter(tab[k])) for k in keys])
+    pos.append({k: 0 for k in keys})
+    pulled.append([] if vals is None else list(vals))
+
+  def constant(j, v):
+    if (j, v, type(v)) not in consts:
+      consts[(j, v, type(v))] = section_tables(build_control_design(group, designs[j], v))
+    return consts[(j, v, type(v))]
+
+  # coefficients that are plain numbers do not depend on the parameter
+  for j, tab in enumerate(built):
+    ctab = constant(j, value)
+    for key in sorted(set(tab) | set(ctab)):
+      got = tab.get(key, 0)
+      if not isinstance(got, Stream) and not abs(got - ctab.get(key, 0)) <= 1e-12:
+        raise Violation("%s: coefficient %s[%d] of %s (section %d) is %r, the constant design has %r"
+                        % (what, key[1], key[2], names[j], key[0], got, ctab.get(key, 0)))
+  labels = ["group:" + group, "src:" + src, "bank of %d" % len(designs)]
+  labels += sorted(set("family:" + d["fam"] for d in designs))
+  if group == "angle":
+    for d in designs:
+      if d["fam"] == "klapuri" or d.get("strat") == "freq_poles_exp":
+        labels.append("raw parameter feeds several coefficients")
+        break
+  history = []
+  stale = changed = later = ended = False
+  for op in case["ops"]:
+    if op[0] == "set":
+      if src == "control" and not (op[1] == value and type(op[1]) is type(value)):
+        ctrl.value = value = op[1]
+        history.append("c.value = %r" % (value,))
+        changed = True
+      continue
+    j, sel, count = op[1], op[2], op[3]
+    key, it_ = streams[j][sel % len(streams[j])]
+    got = list(itertools.islice(it_, count))
+    if vals is not None:      # a finite parameter: the coefficient has its samples and then ends
+      left = max(0, len(vals) - pos[j][key])
+      if len(got) != min(count, left):
+        raise Violation("%s; %s asked for, %d come: the parameter has %d samples and %d of this coefficient "
+                        "were read before" % (what, "; ".join(history + ["%d samples of %s[%d] of %s" % (
+                          count, key[1], key[2], names[j])]), len(got), len(vals), pos[j][key]))
+      if len(got) < count:
+        ended = True
+      count = len(got)
+    history.append("%d samples of %s[%d]%s of %s" % (count, key[1], key[2], " (section %d)" % key[0]
+                                                      if designs[j]["fam"] == "klapuri" else "", names[j]))
+    if len(got) != count:
+      raise Violation("%s; %s: the coefficient Stream ended after %d samples" % (what, "; ".join(history), len(got)))
+    for g in got:
+      i = pos[j][key]
+      pos[j][key] += 1
+      if i == len(pulled[j]):
+        pulled[j].append(value)
+      par = pulled[j][i]
+      if vals is None and not (par == value and type(par) is type(value)):
+        stale = True
+      want = constant(j, par).get(key, 0)
+      if isinstance(g, bool) or not isinstance(g, (int, float)) or not abs(g - want) <= 1e-12:
+        raise Violation("%s; %s: sample %d of that coefficient is %r; parameter sample %d of this design is %r, "
+                        "for which the constant design has %r" % (what, "; ".join(history), i, g, i, par, want))
+      if designs[j]["fam"] == "comb" and designs[j]["kind"] == "tau":
+        if not abs(-g - math.exp(-designs[j]["delay"] / par)) <= 1e-12:
+          raise Violation("%s; %s: sample %d of the feedback coefficient is %r, e^(-delay/tau) with tau=%r is %r"
+                          % (what, "; ".join(history), i, -g, par, math.exp(-designs[j]["delay"] / par)))
+      if j > 0:
+        later = True
+  if changed:
+    labels.append("value changed")
+  if ended:
+    labels.append("coefficient read to its end")
+  if vals is not None and later:
+    labels.append("later design of a bank sharing a hub read")
+  if stale:
+    labels.append("sample pulled earlier read from another coefficient after a change")
+    if "raw parameter feeds several coefficients" in labels:
+      labels.append("raw fan-out design, earlier sample read after a change")
+  if later:
+    labels.append("coefficients of a later design of the bank read")
+    if group == "tau":
+      labels.append("later comb.tau of a bank read")
+  return {"nontrivial": later or changed or (vals is not None and len(set(vals)) > 1), "labels": labels}
+
+
 CLAUSES = [
   Clause("lowhigh", strat_lowhigh, run_lowhigh, quick=2400, thorough=30000,
          floors=dict([("%spass.%s" % (b, s), .03) for b in ("low", "high") for s in STRATS] +
                      [("half power + monotone checked", .25), ("cutoff ~ pi/2", .03),
-                      ("cutoff < pi/6", .05), ("cutoff > 5pi/6", .05)]),
+                      ("cutoff < pi/6", .05), ("cutoff > 5pi/6", .05), ("call:kw", .05), (FLIPPED, .06)]),
          doc="edge gain 1, pole inside the unit circle; pole/z: half power at the cut-off, monotone magnitude"),
   Enumerated("edges", edges, run_edges, shards={"quick": 2, "thorough": 8},
              doc="all 8 strategies on the fixed boundary cut-off list (thorough: plus a 401-point sweep)"),
   Clause("resonator", strat_resonator, run_resonator, quick=1600, thorough=20000,
          floors=dict([("resonator." + s, .08) for s in RES] +
-                     [("gain at resonance checked", .5), ("complex poles", .5)]),
+                     [("gain at resonance checked", .5), ("complex poles", .5), ("call:kw", .1),
+                      ("call:default", .04), (FLIPPED, .06)]),
          doc="z^-2 coefficient e^-bw, unit gain at the resonant frequency, nothing above it on a grid"),
   Clause("comb", strat_comb, run_comb, quick=1400, thorough=16000,
          floors={"comb.fb": .15, "comb.tau": .08, "comb.ff": .08, "more than two periods": .1,
                  "delay 13..40": .04, "delay>40": .08, "given state, order matters": .1,
-                 "given state, delay>40": .03},
+                 "given state, delay>40": .03, "delay by keyword": .04},
          doc="exact Q response == x[n]+alpha*y[n-D] (fb, tau with alpha=e^(-D/tau)) / x[n]+alpha*x[n-D] (ff), "
              "D up to 130, from rest and (fb, tau) from a given memory"),
   Clause("longcomb", strat_longcomb, run_longcomb, quick=400, thorough=5000,
@@ -849,9 +1160,22 @@ CLAUSES = [
              "or Stream), exact Q responses of fb / tau / ff over 1-3 periods for D <= 3000, impulse response "
              "at D and 2D against the stated decay"),
   Clause("gammatone", strat_gammatone, run_gammatone, quick=1000, thorough=10000,
-         floors={"gammatone.sampled": .15, "gammatone.slaney": .08, "gammatone.klapuri": .08},
+         floors={"gammatone.sampled": .15, "gammatone.slaney": .08, "gammatone.klapuri": .08,
+                 "call:positional": .04, "phase / eta by position": .04, "call:kw": .05, "call:default": .03,
+                 FLIPPED: .15, "klapuri with other defaults set": .04},
          doc="CascadeFilter of stable second-order sections, unit gain at the centre frequency"),
   Clause("streams", strat_streams, run_streams, quick=1400, thorough=14000,
          floors={"family:lowhigh": .1, "family:resonator": .1, "family:comb": .05, "family:klapuri": .05},
          doc="Stream-valued parameters: coefficient Streams equal the constant designs sample by sample"),
+  Clause("controls", strat_controls, run_controls, quick=800, thorough=10000,
+         floors={"src:control": .2, "src:hub": .08, "src:repeat": .02, "value changed": .15,
+                 "group:angle": .12, "group:bw": .04, "group:alpha": .04, "group:tau": .08,
+                 "family:lowhigh": .07, "family:resonator": .1, "family:klapuri": .07, "family:comb": .12,
+                 "sample pulled earlier read from another coefficient after a change": .05,
+                 "raw fan-out design, earlier sample read after a change": .02,
+                 "later comb.tau of a bank read": .05, "later design of a bank sharing a hub read": .04,
+                 "coefficient read to its end": .05},
+         doc="one ControlStream (or endless constant Stream) as the parameter of a bank of one to three designs; "
+             "coefficient Streams read out of lockstep while the value changes: index i of every coefficient of a "
+             "design is the constant design for that design's i-th parameter sample"),
 ]
